@@ -45,12 +45,12 @@ def invalidLoop (e : Error) (start : Nat) : (b : Byte) → (tok rest : List Byte
 /-- `handle_invalid_char!(bytes, b, err)`; completes with the line dropped (`continue 'headers`). -/
 def handleInvalid (hc : HCfg) (e : Error) (b : Byte) : P Unit :=
   if !hc.ign then P.fail e
-  else fun c => invalidLoop e c.start b c.tok c.rest
+  else ⟨fun c => invalidLoop e c.start b c.tok c.rest⟩
 
 /-- `while let Some(peek) = bytes.peek() { if peek is SP/HTAB { next!(bytes) } else { break } }` —
 never Partial. -/
-def skipWsRun : P Unit := fun c =>
-  .ok ((), { c with tok := c.tok ++ c.rest.takeWhile isWs, rest := c.rest.dropWhile isWs })
+def skipWsRun : P Unit := ⟨fun c =>
+  .ok ((), { c with tok := c.tok ++ c.rest.takeWhile isWs, rest := c.rest.dropWhile isWs })⟩
 
 /-- the `while b == b' ' || b == b'\t'` loop under `allow_spaces_after_header_name`, entered with
 a whitespace `b`.  Result `none`: a colon was found (`bytes.slice(); break 'name name`);
@@ -69,7 +69,7 @@ def nameStage (be : Backend) (hc : HCfg) : P (Option Slice) := do
   let name ← sliceSkip 1
   if b == COLON then pure (some name)
   else if hc.san && isWs b then
-    let r ← (fun c => sanLoop c.start c.tok c.rest : P (Option Byte))
+    let r ← (⟨fun c => sanLoop c.start c.tok c.rest⟩ : P (Option Byte))
     match r with
     | none => pure (some name)
     | some b' => do handleInvalid hc .headerName b'; pure none
@@ -111,7 +111,7 @@ def wsAfterColon (hc : HCfg) : (start : Nat) → (tok rest : List Byte) → Outc
           else .ok (.empty ⟨start, []⟩, ⟨start + (tok ++ [b]).length, [], r⟩)
       else .ok (.empty ⟨start, []⟩, ⟨start + (tok ++ [b]).length, [], r⟩)
     else
-      match handleInvalid hc .headerValue b ⟨start, tok ++ [b], r⟩ with
+      match (handleInvalid hc .headerValue b).run ⟨start, tok ++ [b], r⟩ with
       | .ok (_, c) => .ok (.skipped, c)
       | .part => .part
       | .err e => .err e
@@ -127,17 +127,17 @@ def valueLines (be : Backend) (hc : HCfg) : Nat → P (Option Slice)
     if b == CR then
       let _ ← expect (· == LF) .headerValue
       if hc.fold then
-        fun c => match c.rest with
+        ⟨fun c => match c.rest with
           | [] => .part
-          | p :: _ => if isWs p then valueLines be hc fuel c
-                      else (do let s ← sliceSkip 2; pure (some s)) c
+          | p :: _ => if isWs p then (valueLines be hc fuel).run c
+                      else (do let s ← sliceSkip 2; pure (some s) : P (Option Slice)).run c⟩
       else do let s ← sliceSkip 2; pure (some s)
     else if b == LF then
       if hc.fold then
-        fun c => match c.rest with
+        ⟨fun c => match c.rest with
           | [] => .part
-          | p :: _ => if isWs p then valueLines be hc fuel c
-                      else (do let s ← sliceSkip 1; pure (some s)) c
+          | p :: _ => if isWs p then (valueLines be hc fuel).run c
+                      else (do let s ← sliceSkip 1; pure (some s) : P (Option Slice)).run c⟩
       else do let s ← sliceSkip 1; pure (some s)
     else do handleInvalid hc .headerValue b; pure none
 
@@ -159,12 +159,12 @@ def headerLine (be : Backend) (hc : HCfg) (nStored : Nat) : P Line := do
     match nm with
     | none => pure .skipped
     | some name =>
-      let w ← (fun c => wsAfterColon hc c.start c.tok c.rest : P WsRes)
+      let w ← (⟨fun c => wsAfterColon hc c.start c.tok c.rest⟩ : P WsRes)
       match w with
       | .skipped => pure .skipped
       | .empty v => pure (.header name v)
       | .value =>
-        let v ← (fun c => valueLines be hc (c.rest.length + 1) c : P (Option Slice))
+        let v ← (⟨fun c => (valueLines be hc (c.rest.length + 1)).run c⟩ : P (Option Slice))
         match v with
         | none => pure .skipped
         | some v => pure (.header name v)
@@ -181,7 +181,7 @@ terminator) and the headers written. -/
 def headersLoop (be : Backend) (hc : HCfg) (cap : Nat) : Nat → Cur → List Hdr → Outcome Cur × List Hdr
   | 0, _, hs => (.ub .fuel, hs)
   | fuel + 1, c, hs =>
-    match headerLine be hc hs.length c with
+    match (headerLine be hc hs.length).run c with
     | .ok (.eoh, c') => (.ok c', hs)
     | .ok (.skipped, c') => headersLoop be hc cap fuel c' hs
     | .ok (.header n v, c') =>
